@@ -30,3 +30,17 @@ def distSqLineLine (a b : Line) : Except DErr Rat :=
 def distSqLinePlane (a : Line) (b : Plane) : Except DErr Rat :=
   if V3.orthogonal a.dv b.n then distSqPointPlane a.sv b else .ok 0
 end G3D
+
+namespace G3D
+/-- `distance(a, b)` on the flat types (squared), `none` = `NotImplementedError` -/
+def distSqGeo : Geo → Geo → Option (Except DErr Rat)
+  | .point p, .point q => some (.ok (distSqPointPoint p q))
+  | .point p, .line l => some (distSqPointLine p l)
+  | .line l, .point p => some (distSqPointLine p l)
+  | .line a, .line b => some (distSqLineLine a b)
+  | .point p, .plane pl => some (distSqPointPlane p pl)
+  | .plane pl, .point p => some (distSqPointPlane p pl)
+  | .line l, .plane pl => some (distSqLinePlane l pl)
+  | .plane pl, .line l => some (distSqLinePlane l pl)
+  | _, _ => none
+end G3D
